@@ -3,7 +3,7 @@
 
 use crate::driver::Cfg;
 use crate::engine::Plan;
-use crate::histx::{add_io_reverse, add_quiet, enum_commit_histories, sort_by_bound, via_overlays, with_control_everywhere};
+use crate::histx::{add_io_reverse, add_pool_poison, add_quiet, enum_commit_histories, sort_by_bound, via_overlays, with_control_everywhere};
 use serde_json::{json, Value};
 
 fn acts(list: &[(&str, Option<usize>)]) -> Vec<Value> {
@@ -80,6 +80,7 @@ fn plan_c01(thorough: bool) -> Plan {
     } else {
         cases.extend(enum_commit_histories(2, 6, 2, &a_full, &mk_case("empty", vec!["U1"], &cfg, "values", false)));
     }
+    cases.extend(crate::plans2::exact_fit_leaf_family("values"));
     // (b) all single batches over four keys with a reduced alphabet, then one follow-up batch
     let a_small = acts(&[("w", Some(1)), ("w", Some(1333)), ("d", None), ("rw", Some(40))]);
     cases.extend(enum_commit_histories(1, 4, 4, &a_small, &mk_case("empty", vec!["U4"], &cfg, "values", false)));
@@ -189,7 +190,7 @@ fn plan_c01(thorough: bool) -> Plan {
     sort_by_bound(&mut cases);
     let mut p = Plan::new(
         cases,
-        "histx: every history of D commits whose batches deviate from the empty batch in at most B key actions (bound = number of deviations), over colliding key universes, from seed states {empty, leaf(6x1300B), branch(600 keys sharing 30 bytes), bulk(1500 keys), ovf(5MiB value), ovf2(two 70000-byte and one 61381-byte value), mixed2(700 clustered + 60 scattered keys), pfx(450 keys sharing 247 bits + 3 far keys: a branch node built with stopped prefix compression; macro action 'delete a run of 100..400 cluster keys' + in-place rewrite of a far key, every seed key audited); queue-shaped workloads on wide / branch (the lowest keys deleted in runs of 1..7 while a far leaf is rewritten, three commits, every seed key audited); one commit right after a cold reopen mixing reads / rewrites / deletes in the first of two leaves with inserts of new keys below, between and above everything on disk (rollback off, leaf cache 0 / 4 MiB, 1 / 3 workers: the leaf stage finds some leaves cached and fetches the others)}; action alphabet = read, delete, read-then-delete, write of sizes {0,1,1332,1333,5000,61380,61381,70000}, read-then-write; reopen inserted at every position for a sub-family; after every commit Nomt::read and Session::read of every universe key are compared with a BTreeMap model. Non-trivial = at least one write was committed; distinct = distinct (case, final-state digest).",
+        "histx: every history of D commits whose batches deviate from the empty batch in at most B key actions (bound = number of deviations), over colliding key universes, from seed states {empty, leaf(6x1300B), branch(600 keys sharing 30 bytes), bulk(1500 keys), ovf(5MiB value), ovf2(two 70000-byte and one 61381-byte value), mixed2(700 clustered + 60 scattered keys), pfx(450 keys sharing 247 bits + 3 far keys: a branch node built with stopped prefix compression; macro action 'delete a run of 100..400 cluster keys' + in-place rewrite of a far key, every seed key audited); queue-shaped workloads on wide / branch (the lowest keys deleted in runs of 1..7 while a far leaf is rewritten, three commits, every seed key audited); one commit right after a cold reopen mixing reads / rewrites / deletes in the first of two leaves with inserts of new keys below, between and above everything on disk (rollback off, leaf cache 0 / 4 MiB, 1 / 3 workers: the leaf stage finds some leaves cached and fetches the others); exact-fit leaves (cells of 34+len bytes summing to every total 4090..4100 around the leaf body size 4094, as three near-maximum or four ~1000-byte cells, alone or followed by two more cells, in one commit / with the exact cell inserted late / overwritten to size)}; action alphabet = read, delete, read-then-delete, write of sizes {0,1,1332,1333,5000,61380,61381,70000}, read-then-write; reopen inserted at every position for a sub-family; after every commit Nomt::read and Session::read of every universe key are compared with a BTreeMap model. Non-trivial = at least one write was committed; distinct = distinct (case, final-state digest).",
     );
     p.budget_s = if thorough { 1500 } else { 55 };
     p.assumptions = vec![
@@ -253,6 +254,7 @@ fn plan_c02(thorough: bool) -> Plan {
         cases.extend(enum_commit_histories(2, 14, 2, &a, &mk_case("empty", vec!["U2"], &c, "root", true)));
     }
     cases.extend(crate::plans2::tombstone_family("root", thorough));
+    cases.extend(crate::plans2::sparse_cluster_promotion_family("root", thorough));
     // the extremes of the key space (all-zero / all-one keys and their neighbours)
     cases.extend(enum_commit_histories(2, 6, if thorough { 3 } else { 2 }, &a, &mk_case("empty", vec!["EXT"], &cfg, "root", true)));
     // roots of finished sessions on overlay chains: an ancestor inserts "round" keys (the exclusive
@@ -276,11 +278,13 @@ fn plan_c02(thorough: bool) -> Plan {
     }
     add_quiet(&mut cases, if thorough { 1 } else { 3 });
     add_io_reverse(&mut cases, if thorough { 5 } else { 15 });
+    add_pool_poison(&mut cases, if thorough { 4 } else { 16 }, 0xA5);
+    add_pool_poison(&mut cases, if thorough { 5 } else { 17 }, 0x5A);
     cases.extend(crate::schedx::worker_schedule_cases(thorough));
     sort_by_bound(&mut cases);
     let mut p = Plan::new(
         cases,
-        "histx: every history of D commits with at most B key actions {insert, delete, overwrite} over (i) a 14-key family diverging at bits {0,1,5,6,7,11,12,13,17,18,127,254,255} and (ii) clusters of 18..22 keys below one depth-2 and one depth-3 merkle page (page-elision threshold from both sides), for 1..64 commit workers, and (iii) the tombstone family (16/32-bucket tables × 16 bitbox seeds, 10 pages, every page / adjacent pair of pages removed, cold reopen, re-insert, reopen), (iiib) roots of sessions on overlay chains in which an ancestor inserts 'round' keys (prefix·1·0…0) and a descendant writes into the sub-trie on their left whose only leaf is on disk, (iiic) the 2-commit cluster and key-pair (fresh depth-1 pages) histories prepared as a chain of two overlays (the second built on the uncommitted first) and committed in order, (iiid) 'quiet' copies (no reads between the operations) of every second history that starts from a seed state, and (iv) every schedule with ≤2 (thorough: all) preemptions of the three merkle update workers of one commit (worker start, publishing of child-page roots, hand-back of the write pass, root-page phase) under the controlled scheduler; FinishedSession::root, Nomt::root after each commit and after a final reopen are compared with an independent from-scratch recursive trie over the model's key-value set. Non-trivial = at least one write committed. Also ALL schedules (a few hundred per batch) of the three beatree leaf-stage workers of one commit whose ranges are three consecutive leaves that all fall below the merge threshold (three batches: two of three values deleted / values shrunk and last leaf deleted / middle leaf deleted), i.e. of the extend-range protocol between neighbouring workers (poll left neighbour, send request, wait for response, wait for left neighbour to conclude, join in completion order): after every schedule the values, root and proofs equal the model and the directory decodes (independent decoder) to exactly the model with every page accounted for. And the branch stage: seed with two bottom branch nodes, one commit deleting 420–440 consecutive keys (≈ 140 leaves) so that the first node falls below the merge threshold and its worker requests nodes from its right neighbour, with three leaf-stage workers running under the scheduler as well (2 batches; every schedule with 0 preemptions quick, ≤1 and a capped ≤2 thorough).",
+        "histx: every history of D commits with at most B key actions {insert, delete, overwrite} over (i) a 14-key family diverging at bits {0,1,5,6,7,11,12,13,17,18,127,254,255} and (ii) clusters of 18..22 keys below one depth-2 and one depth-3 merkle page (page-elision threshold from both sides), for 1..64 commit workers, and (iii) the tombstone family (16/32-bucket tables × 16 bitbox seeds, 10 pages, every page / adjacent pair of pages removed, cold reopen, re-insert, reopen), (iiib) roots of sessions on overlay chains in which an ancestor inserts 'round' keys (prefix·1·0…0) and a descendant writes into the sub-trie on their left whose only leaf is on disk, (iiic) the 2-commit cluster and key-pair (fresh depth-1 pages) histories prepared as a chain of two overlays (the second built on the uncommitted first) and committed in order, (iiid) 'quiet' copies (no reads between the operations) of every second history that starts from a seed state, (iiie) the sparse-cluster promotion family — seeds of 18/19 leaves under one 12-bit prefix with a lone leaf L high in the elided depth-2 page, universe {L, three absent keys sharing 14/16/18 bits with L, two fillers, two present keys}, all 3-commit histories with ≤B' actions plus 'chain and promotion in one commit, then every single action on it', each with the page pool handing out buffers full of 0xA5, of 0x5A and as they come (verif knob: the contents of an allocated page are undefined) — and a 1-in-16 / 1-in-17 sample of all histories once more with poisoned buffers, and (iv) every schedule with ≤2 (thorough: all) preemptions of the three merkle update workers of one commit (worker start, publishing of child-page roots, hand-back of the write pass, root-page phase) under the controlled scheduler; FinishedSession::root, Nomt::root after each commit and after a final reopen are compared with an independent from-scratch recursive trie over the model's key-value set. Non-trivial = at least one write committed. Also ALL schedules (a few hundred per batch) of the three beatree leaf-stage workers of one commit whose ranges are three consecutive leaves that all fall below the merge threshold (three batches: two of three values deleted / values shrunk and last leaf deleted / middle leaf deleted), i.e. of the extend-range protocol between neighbouring workers (poll left neighbour, send request, wait for response, wait for left neighbour to conclude, join in completion order): after every schedule the values, root and proofs equal the model and the directory decodes (independent decoder) to exactly the model with every page accounted for. And the branch stage: seed with two bottom branch nodes, one commit deleting 420–440 consecutive keys (≈ 140 leaves) so that the first node falls below the merge threshold and its worker requests nodes from its right neighbour, with three leaf-stage workers running under the scheduler as well (2 batches; every schedule with 0 preemptions quick, ≤1 and a capped ≤2 thorough).",
     );
     p.budget_s = if thorough { 1500 } else { 55 };
     p.assumptions = vec!["collision resistance of the hasher (equal roots ⇔ equal tries)".into()];
@@ -347,6 +351,8 @@ fn plan_c16(thorough: bool) -> Plan {
     let mut cases = structural_family(thorough, if thorough { &[64, 256, 4096] } else { &[64, 4096] });
     cases.extend(pfx_family("noproof"));
     cases.extend(crate::plans2::tombstone_family("noproof", thorough));
+    cases.extend(crate::plans2::sparse_cluster_promotion_family("noproof", thorough).into_iter().filter(|c| thorough || c["bound"].as_u64().unwrap_or(0) >= 2));
+    cases.extend(crate::plans2::exact_fit_leaf_family("noproof"));
     set_all(&mut cases, "image", json!("c16"));
     for (h, t, b) in crash_histories(false).into_iter().chain(root_layer_histories(false)) {
         if b >= 3 || h["seed"] != "empty" {
@@ -358,7 +364,7 @@ fn plan_c16(thorough: bool) -> Plan {
     sort_by_bound(&mut cases);
     let mut p = Plan::new(
         cases,
-        "histx + imgdec: every history of ≤D commits with ≤B key actions over structural seed states (empty, leaf, branch, bulk, ovf, clusters of 19..21 keys below a depth-2 and a depth-3 merkle page) with hash tables of 64/256/4096 buckets; the page-creating / page-clearing part of the family (clusters around the elision threshold, pairs of keys that each need a depth-1 page) also with every commit made through an overlay — one by one, and as a chain of overlays committed in order; 'quiet' copies without reads between the operations; at every quiescent point (after open and after every commit) the directory is decoded by an independent decoder written from the documented formats: every key in exactly one leaf, strict order within/across leaves, keys bounded by separators, bbn labels, overflow chains complete with matching value hash and disjoint pages, used ∩ free = ∅, no page used twice, decoded key-value map = model; every full bucket found exactly once through its own probe sequence, every node reachable in every stored page = the reference trie's node at that position, needed pages either stored or marked elided (and then absent with all descendants), no unreachable stored page. Plus every process-crash cut (see C03) of the explicit crash histories (rollback, pruning, overlay commits, page promotion from elided to stored, pages cleared by delete-only commits): the image recovered by Nomt::open is decoded the same way.",
+        "histx + imgdec: every history of ≤D commits with ≤B key actions over structural seed states (empty, leaf, branch, bulk, ovf, clusters of 19..21 keys below a depth-2 and a depth-3 merkle page) with hash tables of 64/256/4096 buckets; the page-creating / page-clearing part of the family (clusters around the elision threshold, pairs of keys that each need a depth-1 page) also with every commit made through an overlay — one by one, and as a chain of overlays committed in order; 'quiet' copies without reads between the operations; the sparse-cluster promotion family of C02 (poisoned page-pool buffers) and the exact-fit leaf family of C01; at every quiescent point (after open and after every commit) the directory is decoded by an independent decoder written from the documented formats: every key in exactly one leaf, strict order within/across leaves, keys bounded by separators, bbn labels, overflow chains complete with matching value hash and disjoint pages, used ∩ free = ∅, no page used twice, decoded key-value map = model; every full bucket found exactly once through its own probe sequence, every node reachable in every stored page = the reference trie's node at that position, needed pages either stored or marked elided (and then absent with all descendants), no unreachable stored page. Plus every process-crash cut (see C03) of the explicit crash histories (rollback, pruning, overlay commits, page promotion from elided to stored, pages cleared by delete-only commits): the image recovered by Nomt::open is decoded the same way.",
     );
     p.budget_s = if thorough { 1500 } else { 55 };
     p.assumptions = vec!["the decoder implements the documented layouts (trusted, ~600 lines, shares no code with nomt)".into(), "crash-recovered images are covered by the C03 check, which applies the same decoder".into()];
@@ -372,6 +378,12 @@ fn mk_multiworker_case(seed: &str, cfg: &Cfg, ops: Vec<Value>) -> Value {
 fn plan_c19(thorough: bool) -> Plan {
     let mut cases = structural_family(thorough, if thorough { &[64, 4096, 64000] } else { &[64, 4096] });
     cases.extend(crate::plans2::tombstone_family("noproof", thorough));
+    // changesets prepared on an uncommitted overlay and committed directly after it (pages the
+    // overlay created are 'dependent' in the prepared changeset: one bucket, not two)
+    cases.extend(crate::plans2::prepared_on_overlay_family().into_iter().map(|mut c| {
+        c["audit"] = json!("noproof");
+        c
+    }));
     set_all(&mut cases, "image", json!("c19"));
     for (h, t, b) in crash_histories(false).into_iter().chain(root_layer_histories(false)) {
         if b >= 3 || h["seed"] != "empty" {
@@ -410,7 +422,7 @@ fn plan_c19(thorough: bool) -> Plan {
     sort_by_bound(&mut cases);
     let mut p = Plan::new(
         cases,
-        "histx + imgdec: the structural history family of C16 (including the histories committed through overlays and overlay chains); at every quiescent point the decoder's page accounting must give [1, bump) = in-use ⊎ free-list-tracked in both value files (no leak, no double use), and hash_table_utilization().occupied = number of full buckets in the decoded meta map = number of stored pages reachable from the root (0 for an empty store). Plus every process-crash cut of the explicit crash histories: the same accounting of occupancy on the handle that recovered the image. Plus commits executed by several value-tree workers: fill / thin out (7 of 8 keys deleted) / empty cycles over 1500 keys with 2, 3 and 4 commit workers, and every schedule of the three leaf-stage workers of three merge-heavy commits plus the branch-stage hand-over (harnesses M2del, M2shrink, M2wipe, M3, M3b of C13), each followed by the full page accounting.",
+        "histx + imgdec: the structural history family of C16 (including the histories committed through overlays and overlay chains); at every quiescent point the decoder's page accounting must give [1, bump) = in-use ⊎ free-list-tracked in both value files (no leak, no double use), and hash_table_utilization().occupied = number of full buckets in the decoded meta map = number of stored pages reachable from the root (0 for an empty store). Plus every process-crash cut of the explicit crash histories: the same accounting of occupancy on the handle that recovered the image. Plus the prepared-on-overlay family of C12 (a changeset prepared on an uncommitted overlay and committed directly after it, with commits / rollbacks in between) under the same accounting: no page stored in two buckets. Plus commits executed by several value-tree workers: fill / thin out (7 of 8 keys deleted) / empty cycles over 1500 keys with 2, 3 and 4 commit workers, and every schedule of the three leaf-stage workers of three merge-heavy commits plus the branch-stage hand-over (harnesses M2del, M2shrink, M2wipe, M3, M3b of C13), each followed by the full page accounting.",
     );
     p.budget_s = if thorough { 1500 } else { 55 };
     p
